@@ -314,12 +314,33 @@ where
     total
 }
 
-/// Code points that differ from `c` in exactly one of the bits 16..=20 and are scalar values:
-/// what a lookup that truncates or folds the code point (u16 keys, `cp & mask` cache slots,
-/// plane-blind tags) confuses `c` with.
+/// The code points that share the low 16 bits of `c` in every other plane (16 of them): what
+/// a lookup that truncates or folds the code point (u16 keys or tags, `cp & mask` cache
+/// slots, plane-blind tables) confuses `c` with, whatever it does with the remaining bits.
 pub fn alias_chars(c: char) -> Vec<char> {
     let x = c as u32;
-    (16..=20u32).filter_map(|b| char::from_u32(x ^ (1 << b))).filter(|a| *a != c).collect()
+    (0..=16u32).filter(|p| *p != x >> 16).filter_map(|p| char::from_u32((x & 0xFFFF) | (p << 16))).collect()
+}
+
+/// Run `f` on every scalar value in ascending and then in descending order ON ONE THREAD:
+/// the history a per-thread cache, counter or lazily grown table sees when one caller works
+/// through the whole code space (slot-number wrap, eviction, rehash after many distinct keys).
+pub fn cpsweep_sequential<F>(f: F) -> Stats
+where
+    F: Fn(char, &mut Stats),
+{
+    let mut st = Stats::default();
+    for cp in (0..0x110000u32).chain((0..0x110000u32).rev()) {
+        if lite() && !(cp < 0x3100 || (0xF900..0x11000).contains(&cp) || cp % 61 == 0) {
+            continue;
+        }
+        if let Some(c) = char::from_u32(cp) {
+            st.states += 1;
+            st.transitions += 1;
+            f(c, &mut st);
+        }
+    }
+    st
 }
 
 /// "Pumped" strings over an alphabet: a^k b, b a^k and a^k b a for run lengths k around every
